@@ -137,8 +137,14 @@ class AliasMod(object):
             return out
         if op == "ite":
             c, a, b = t.a
-            if not (c.op == "cmp" and c.a[0] in ("is", "isnot")):
-                return self.ident(a, f, _seen) | self.ident(b, f, _seen)
+            if c.op == "cmp" and c.a[0] in ("is", "isnot") and (tm.is_const(c.a[1], None) or tm.is_const(c.a[2], None)):
+                # `X if X is not None else ...`: in the branch where X is None, X is nothing
+                x = c.a[2] if tm.is_const(c.a[1], None) else c.a[1]
+                none_branch_is_a = c.a[0] == "is"
+                ra = frozenset() if (none_branch_is_a and a is x) else self.ident(a, f, _seen)
+                rb = frozenset() if ((not none_branch_is_a) and b is x) else self.ident(b, f, _seen)
+                return ra | rb
+            return self.ident(a, f, _seen) | self.ident(b, f, _seen)
         if op == "sub":
             base, idx = t.a
             if idx.op == "const" and isinstance(idx.a[0], (int, float)) and not isinstance(idx.a[0], bool) and idx.a[0] == int(idx.a[0]):
